@@ -19,7 +19,9 @@ def reference_F(get_L, get_x, F0, t0, t1, pristine=None):
     def f(t, y):
         L = pristine if pristine is not None else np.asarray(get_L(t, get_x(t)), dtype=float)
         return (L @ y.reshape(3, 3)).reshape(-1)
-    sol = solve_ivp(f, (t0, t1), F0.reshape(-1), method="DOP853", rtol=1e-11, atol=1e-13)
+    # max_step: a velocity gradient with compact support in time (pulses, shear zones crossed along the pathline) must not
+    # be stepped over by the reference integration
+    sol = solve_ivp(f, (t0, t1), F0.reshape(-1), method="DOP853", rtol=1e-11, atol=1e-13, max_step=abs(t1 - t0) / 64)
     return sol.y[:, -1].reshape(3, 3)
 
 
@@ -64,7 +66,9 @@ def run(chk):
     ]
     chk.cov["rule"] = ("histories with non-identity starting F (det > 0, non-commuting with L), 7 flow families incl. time- and position-dependent, "
                        "all accepted regimes incl. the null regimes, 1..4 updates; each update: returned F vs the model (exact) and vs an "
-                       "independent DOP853 integration; paired runs: different minerals / split vs whole interval / bulk update; non-trivial = F changed")
+                       "independent DOP853 integration; paired runs: different minerals / split vs whole interval / bulk update; flows that take exactly the same "
+                       "value at the start, midpoint and end of every update but vary in between (whole cosine periods, pulses, shear zones along a straight "
+                       "pathline, closed pathlines; one history per family [thorough: 6]); non-trivial = F changed")
     bad, mon = [], []
     rng = np.random.default_rng(chk.seed)
     import pydrex
@@ -100,6 +104,34 @@ def run(chk):
                         dF = np.abs(h["F_hist"][-1] - h1["F_hist"][-1]).max() / np.abs(h["F_hist"][-1]).max()
                         if dF > 2 * (5e-3 + 1e-3 * (sc["nupd"] + 2 * h["strain"])):
                             mon.append((sc, sc["nupd"] - 1, f"split interval and whole interval give different F: {dF:.3e}", F0))
+            # velocity gradients that coincide EXACTLY at the start, the midpoint and the end of every update and vary in
+            # between (whole periods, pulses / shear zones strictly inside, closed pathlines): own PRNG stream
+            rngc = np.random.default_rng([chk.seed, 0xC06D])
+            fam = chk.cov.setdefault("coincident_flow_families", {})
+            for sc in MT.coincident_scenarios(rngc, chk.tier, regimes=(4, 6, 0, 7)):
+                F0 = random_F0(rngc)
+                h = c01.run_history(rec, sc, F0=F0)
+                c01.validate_traces(chk, h, bad)
+                fails = [f for f in h["fails"]]
+                worst = max(worst, check_history(h, F0, fails))
+                mon += [(sc, k, m, F0) for k, m in fails]
+                fam[sc["lkind"]] = fam.get(sc["lkind"], 0) + 1
+                # the whole history as ONE update of the same flow (its sample points no longer coincide) returns the same F
+                if sc["nupd"] > 1 and not fails:
+                    m1, p1, gL, gx, _ = MT.build(sc)
+                    F1 = m1.update_orientations(p1, F0.copy(), gL, (0.0, sc["nupd"] * h["dt"], gx))
+                    dF = float(np.abs(F1 - h["F_hist"][-1]).max() / np.abs(h["F_hist"][-1]).max())
+                    if dF > 2 * (5e-3 + 1e-3 * (sc["nupd"] + 2 * h["strain"])):
+                        mon.append((sc, sc["nupd"] - 1, f"split interval and whole interval give different F: {dF:.3e}", F0))
+            # block-boundary grain counts (trace validation of the rate kernel at those sizes; F as above)
+            for sc in MT.block_scenarios(np.random.default_rng([chk.seed, 0xB10C]), chk.tier, regimes=(4, 6, 0),
+                                         sizes=(64, 128, 129, 1024) if chk.tier == "quick" else None):
+                F0 = random_F0(np.random.default_rng([chk.seed, 0xB10C, sc["n"]]))   # own stream: `rng` is undisturbed
+                h = c01.run_history(rec, sc, F0=F0)
+                c01.validate_traces(chk, h, bad)
+                fails = [f for f in h["fails"]]
+                worst = max(worst, check_history(h, F0, fails))
+                mon += [(sc, k, m, F0) for k, m in fails]
             # bulk update returns the single-phase F
             for _ in range(3 if chk.tier == "quick" else 30):
                 sc = MT.scenario(rng, regime=4, pair=(0, 0), n=6, nupd=1)
